@@ -35,6 +35,16 @@ Check Ast_methods_are_source : forall (c : cx) (x : lnode),
   gam_BangOperator_kind x = Some (m_bang_kind x).
 Print Assumptions Ast_methods_are_source.
 
+(** the hand-written methods of ast.rs are exactly these nine: six proved equal to the bridge's models above, three
+    (no hand model) proved panic-free below; a method added to or removed from ast.rs changes [gen_ast_methods] *)
+Theorem Ast_methods_covered : gen_ast_methods =
+  [ "SliceSuffix::is_single_element"; "Integer::value"; "String::value"; "Code::value"; "Boolean::value";
+    "VarName::value"; "Identifier::value"; "Identifier::range"; "BangOperator::kind" ]%string.
+Proof. reflexivity. Qed.
+Check Ast_methods_covered : gen_ast_methods =
+  [ "SliceSuffix::is_single_element"; "Integer::value"; "String::value"; "Code::value"; "Boolean::value";
+    "VarName::value"; "Identifier::value"; "Identifier::range"; "BangOperator::kind" ]%string.
+
 (** `lexer::interpret_number` as Integer::value calls it (the GENERATED lexer function) is the bridge's *)
 Theorem Ast_interpret_number_is_source : forall s : text, g_interpret_number s = AstToCore.interpret_number s.
 Proof. exact interpret_number_eq. Qed.
